@@ -359,6 +359,421 @@ def run(res, outs):
     return n
 
 
+# ============================================================================= multi-section and figure documents
+#
+# `Props/C01totalmore.lean`: `C01_encodeM_total` (accepted ∧ shapes ∧ measure-ok ⇒ a document, or ValueError and the
+# keys of some section are not contiguous), `C01_encodeF_total` (accepted ∧ shapes ⇒ a document), evaluated by the
+# driver ops `encode_total_multi` / `encode_total_figure` on the states of `encodecorr2` (byte-exact correspondence of
+# those two encoder models with rtf_encode()).  A single frame under a nested header list (`nested1`, assigned after
+# construction) goes through `encode_total` on the concatenated list (`C01_encodeNested1_total`).
+
+def _more_request(o):
+    """the totality request for one outcome of `encodecorr2` (None: nothing to evaluate)"""
+    req = o.get("req")
+    if req is None:
+        return None
+    if o["path"] == "multi":
+        return dict(op="encode_total_multi", doc=req["doc"], widths=req["widths"])
+    if o["path"] == "figure":
+        return dict(op="encode_total_figure", doc=req["doc"])
+    if o["path"] == "nested1":
+        doc = dict(req["doc"])
+        doc["headers"] = [h for entry in req["nested_headers"] for h in entry]
+        return dict(op="encode_total", doc=doc, widths=req["widths"])
+    return None
+
+
+def check_accepted_more(res, outs):
+    """`outs` = outcomes of `encodecorr2.run`.  A figure document whose spec carries `_post` was changed by plain
+    attribute writes AFTER construction: its state is not one the constructors guarantee, so `accepted` need not hold
+    of it — the transported theorem (real raises ⇒ a hypothesis fails) is checked on it all the same."""
+    live = [(o, r) for o in outs for r in [_more_request(o)] if r is not None]
+    drv = encodecorr.model_batch([r for _, r in live])
+    for (o, _), t in zip(live, drv):
+        path = o["path"]
+        case = dict(level="encode-total2", path=path, spec=o["spec"], info=o["info"])
+        if "accepted" not in t:
+            raise common.MachineryError(f"encode_total ({path}): {t}")
+        res.corr_checked += 1
+        post = bool(o["spec"].get("_post"))
+        if not t["holds"]:
+            res.disagree(case, f"the compiled {path} encoder model violates the statement of the totality theorem "
+                               f"(Props/C01totalmore.lean): {t}")
+            continue
+        if not t["accepted"]:
+            if post:
+                res.count(f"total2:{path}:post-assigned-not-accepted:" + (o.get("exc") or "encodes"))
+                continue
+            res.count(f"total2:{path}:constructed-but-not-accepted")
+            res.disagree(case, f"the real constructors accept this {path} document, the predicate "
+                               f"`{'acceptedF' if path == 'figure' else 'acceptedM' if path == 'multi' else 'accepted'}` "
+                               "does not: the totality theorem covers fewer documents than rtflite accepts")
+            continue
+        res.count(f"total2:{path}:accepted")
+        if path == "multi" and not all(t["section_accepted"]):
+            res.disagree(case, "acceptedM holds and a temp_document is not `accepted` (C01_sections_accepted)")
+        measure_ok = t.get("measure_ok", True)
+        contiguous = t.get("contiguous", True)
+        hyp = t["shapes"] and measure_ok
+        if not t["shapes"]:
+            res.count(f"total2:{path}:outside-quantifier:" + (o.get("exc") or "encodes"))
+        elif o["status"] == "ok":
+            res.count(f"total2:{path}:in-quantifier:encodes")
+            if not measure_ok:
+                res.disagree(case, "the model asks for a string width the real pagination did not measure "
+                                   f"({t.get('requests')} requests)")
+        elif not contiguous:
+            res.count(f"total2:{path}:in-quantifier:refused-noncontiguous")
+            if o.get("exc") != "ValueError":
+                res.fail(case, f"non-contiguous group_by keys must be refused with ValueError, rtf_encode() raises "
+                               f"{o.get('exc')}: {o.get('msg', '')[:200]}")
+        elif hyp:
+            res.count(f"total2:{path}:in-quantifier:RAISES")
+            if o.get("verdict") not in ("real-error", "error-kind"):      # those are reported by encodecorr2 already
+                res.fail(case, f"rtf_encode() raises {o.get('exc')}: {o.get('msg', '')[:300]} on a {path} "
+                               "configuration that is accepted at construction and inside C01's quantifier: the first "
+                               "clause of C01 fails on this input")
+        else:
+            res.count(f"total2:{path}:in-quantifier:raised-before-measuring")
+            if o.get("verdict") not in ("real-error", "error-kind", "both-error"):
+                res.fail(case, f"rtf_encode() raises {o.get('exc')}: {o.get('msg', '')[:300]} on an accepted {path} "
+                               "configuration inside C01's quantifier")
+    return len(live)
+
+
+# one invalid value each, on the multi-section and the figure path
+
+PNG_HEX = "89504e470d0a1a0a0000000d49484452000000030000000208020000001234"
+JPG_HEX = "ffd8ffe000104a46494600010100000100010000ffc0000b080002000301011100ffd9"
+
+BASE_M = dict(
+    kind="multi",
+    df=[dict(cols=["g", "a", "b"], rows=[["A", "x", "1"], ["A", "y", "2"], ["B", "z", "3"]]),
+        dict(cols=["c", "d"], rows=[["p", "1"], ["q", "2"]])],
+    body=[{}, {}], headers=[[dict(text=["G", "A", "B"])], [dict(text=["C", "D"])]],
+    page={}, title=dict(text="T"), subline=dict(text="S"), page_header={}, page_footer=dict(text="F"),
+    footnote=dict(text="fn"), source=dict(text="src"))
+
+BASE_F = dict(
+    kind="figure",
+    figure=dict(files=[dict(name="f0.png", hex=PNG_HEX), dict(name="f1.jpg", hex=JPG_HEX)], fig_width=[5, 6.1],
+                fig_height=[4, 3], fig_align="left"),
+    page={}, title=dict(text="T"), subline=dict(text="S"), page_header={}, page_footer=dict(text="F"),
+    footnote=dict(text="fn", as_table=False), source=dict(text="src"))
+
+
+def _cases_more():
+    cs = []
+    # multi-section: the SECOND section's body / header (the first is the single-section case all over again)
+    for a, v in (("text_font", 11), ("text_format", "x"), ("text_font_size", 0), ("text_color", "notacolor"),
+                 ("text_justification", "x"), ("border_left", "zigzag"), ("border_color_top", "nocolor"),
+                 ("border_width", 0), ("cell_height", -0.5), ("cell_justification", "j"),
+                 ("cell_vertical_justification", "middle"), ("cell_nrow", 0)):
+        cs.append(("multi", "attr", "body1", a, v))
+        cs.append(("multi", "attr", "header1", a, v))
+    cs.append(("multi", "widths", "body1", "col_rel_width", [0, 1]))
+    cs.append(("multi", "widths", "header1", "col_rel_width", [-1, 1]))
+    cs.append(("multi", "widths", "header0", "col_rel_width", [0, 1, 1]))
+    for f in ("group_by", "page_by", "subline_by"):
+        cs.append(("multi", "names", "body1", f, ["nope"]))
+        cs.append(("multi", "names", "body1", f, ["g"]))       # a column of section 0, not of section 1
+    cs.append(("multi", "newpage", "body1", "new_page", True))
+    cs.append(("multi", "overlap", "body1", "group_by", dict(group_by=["c"], page_by=["c"])))
+    cs.append(("multi", "overlap", "body1", "group_by", dict(group_by=["c"], subline_by=["c"])))
+    for f, v in (("width", 0), ("height", -3.5), ("nrow", 0), ("col_width", 0), ("margin", [1, 1, 1]),
+                 ("border_first", "zigzag"), ("border_last", "zz")):
+        cs.append(("multi", "page", "page", f, v))
+        cs.append(("figure", "page", "page", f, v))
+    for comp in ("title", "footnote", "source", "page_footer"):
+        for a, v in (("text_font", 0), ("text_color", "notacolor"), ("text_font_size", -2.5)):
+            cs.append(("multi", "attr", comp, a, v))
+            cs.append(("figure", "attr", comp, a, v))
+    # figure
+    for f in ("fig_width", "fig_height"):
+        for v in (0, -1, [], [5, 0], [5, -2.5]):
+            cs.append(("figure", "fig", "figure", f, v))
+    for v in ("justify", "", "centre"):
+        cs.append(("figure", "fig", "figure", "fig_align", v))
+    cs.append(("figure", "as_table", "footnote", "as_table", True))
+    cs.append(("figure", "as_table", "source", "as_table", True))
+    cs.append(("figure", "suffix", "figure", "files", ".gif"))
+    cs.append(("figure", "suffix", "figure", "files", ".bmp"))
+    cs.append(("figure", "nofigs", "figure", "files", []))
+    return cs
+
+
+def _set_spec_more(spec, kind, comp, a, v):
+    if comp in ("body1", "header0", "header1"):
+        tgt = spec["body"][1] if comp == "body1" else spec["headers"][int(comp[-1])][0]
+        if kind in ("attr", "widths", "names"):
+            tgt[a] = v
+        elif kind == "newpage":
+            tgt["new_page"] = True
+        elif kind == "overlap":
+            tgt.update(v)
+    elif kind == "page":
+        spec["page"][a] = v
+    elif kind == "attr":
+        spec[comp][a] = v
+    elif kind == "fig":
+        spec["figure"][a] = v
+    elif kind == "as_table":
+        spec[comp]["as_table"] = v
+    elif kind == "suffix":
+        spec["figure"]["files"][1]["name"] = "f1" + v
+    elif kind == "nofigs":
+        spec["figure"]["files"] = []
+
+
+def _inject_more(state, kind, comp, a, v):
+    """the post-construction state that would hold the value (None: not representable in `MDoc` / `FDoc`)"""
+    rat = encodecorr.rat
+    if comp in ("body1", "header0", "header1"):
+        tgt = state["sections"][1]["body"] if comp == "body1" else state["sections"][int(comp[-1])]["headers"][0]
+        if kind == "attr":
+            tgt["attrs"][a] = [[encodecorr.ser_val(v)]]
+        elif kind == "widths":
+            tgt["col_rel_width"] = [rat(x) for x in v]
+        elif kind == "names":
+            tgt[a] = [encodecorr.cps(x) for x in v]
+        elif kind == "newpage":
+            tgt["new_page"], tgt["page_by"] = True, None
+        elif kind == "overlap":
+            for k2, v2 in v.items():
+                tgt[k2] = [encodecorr.cps(x) for x in v2]
+    elif kind == "page":
+        pg = state["page"]
+        if a == "margin":
+            pg["margin"] = [rat(x) for x in v]
+        elif a == "nrow":
+            pg["nrow"] = v
+        elif a in ("border_first", "border_last"):
+            pg[a] = v
+        else:
+            pg[a] = rat(v)
+    elif kind == "attr":
+        tgt = state[comp]
+        if comp in ("footnote", "source"):
+            tgt["attrs"][a] = [[encodecorr.ser_val(v)]]
+        else:
+            tgt["attrs"][a] = {"t": [encodecorr.ser_val(v)]}
+    elif kind == "fig":
+        if a == "fig_align":
+            state["fig_align"] = v
+        else:
+            state[a] = [rat(x) for x in (v if isinstance(v, list) else [v])]
+    elif kind == "as_table":
+        state[comp]["as_table"] = True
+    elif kind == "suffix":
+        state["figs"][1]["suffix"] = v
+    elif kind == "nofigs":
+        state["figs"] = []
+    return state
+
+
+def _neg_worker_more(case):
+    import shutil
+    import tempfile
+
+    from . import encodecorr2
+
+    path, kind, comp, a, v = case
+    wd = tempfile.mkdtemp(prefix="rtfv_tot2_") if path == "figure" else None
+    try:
+        base = BASE_M if path == "multi" else BASE_F
+        ser = encodecorr2.serialize_multi if path == "multi" else encodecorr2.serialize_figure
+        with contextlib.redirect_stdout(io.StringIO()):
+            state = ser(docgen.build(copy.deepcopy(base), wd))
+        spec = copy.deepcopy(base)
+        _set_spec_more(spec, kind, comp, a, v)
+        try:
+            with contextlib.redirect_stdout(io.StringIO()):
+                doc = docgen.build(spec, wd)
+            raised = None
+        except Exception as e:  # noqa: BLE001
+            raised = docgen.classify_exc(e) + ": " + str(e)[:120]
+        if raised is None:
+            # the constructor accepts the value after all: the real state must be accepted — and what does the real
+            # encoder do with it?
+            try:
+                real_state = ser(doc)
+            except TypeError:
+                real_state = None
+            try:
+                with contextlib.redirect_stdout(io.StringIO()):
+                    docgen._encode_with_deadline(doc)
+                enc = None
+            except Exception as e:  # noqa: BLE001
+                enc = docgen.classify_exc(e) + ": " + str(e)[:160]
+            return dict(case=list(case), raised=None, state=real_state, enc=enc)
+        return dict(case=list(case), raised=raised, state=_inject_more(copy.deepcopy(state), kind, comp, a, v))
+    except Exception:  # noqa: BLE001
+        import traceback
+
+        return dict(machinery=traceback.format_exc()[-1500:])
+    finally:
+        if wd is not None:
+            shutil.rmtree(wd, ignore_errors=True)
+
+
+def _total_req(path, state, widths=()):
+    if path == "multi":
+        return dict(op="encode_total_multi", doc=state, widths=list(widths))
+    return dict(op="encode_total_figure", doc=state)
+
+
+def check_rejected_more(res):
+    outs = common.pool_map(_neg_worker_more, _cases_more(), chunksize=8)
+    for o in outs:
+        if "machinery" in o:
+            raise common.MachineryError("encodetotal worker failed: " + o["machinery"])
+    live = [o for o in outs if o["state"] is not None]
+    drv = encodecorr.model_batch([_total_req(o["case"][0], o["state"]) for o in live])
+    for o, t in zip(live, drv):
+        path = o["case"][0]
+        case = dict(level="encode-total2-invalid", case=o["case"])
+        if "accepted" not in t:
+            raise common.MachineryError(f"encode_total ({path}): {t}")
+        res.corr_checked += 1
+        name = "acceptedM" if path == "multi" else "acceptedF"
+        if o["raised"] is not None:
+            res.count(f"total2:{path}:invalid-value:constructor-raises")
+            if t["accepted"]:
+                res.disagree(case, f"the real constructor refuses this value ({o['raised']}), the predicate `{name}` of "
+                                   "Model/EncodeAcceptedMore.lean admits the state that holds it")
+        else:
+            res.count(f"total2:{path}:invalid-value:constructor-accepts")
+            if not t["accepted"]:
+                if o.get("enc") and not o["enc"].startswith("ValueError: Data is not properly grouped"):
+                    res.fail(case, f"the constructor accepts this value (a validator of rtflite that `{name}` mirrors "
+                                   f"no longer refuses it) and rtf_encode() raises {o['enc']}: an accepted "
+                                   "configuration that does not encode — the first clause of C01 fails on this input")
+                else:
+                    res.disagree(case, f"the real constructor accepts this value, `{name}` does not")
+    res.count("total2:invalid-value:not-representable", len(outs) - len(live))
+    return len(live)
+
+
+# configurations the constructors ACCEPT and the quantifier predicates exclude (the witnesses `C01totalmore_outside_*`
+# of Props/C01totalmore.lean and their variants), plus two the figure quantifier INCLUDES although the table paths
+# exclude them (a paragraph-rendered footnote reads its text attributes only)
+OUTSIDE_MORE = [
+    ("multi", "empty-list", "body1", dict(text_font=[])),
+    ("multi", "empty-list", "body1", dict(border_left=[])),
+    ("multi", "empty-list", "header1", dict(text_format=[])),
+    ("multi", "ragged", "body1", dict(text_font=[[1, 2], [1]])),
+    ("multi", "none-required", "body1", dict(text_hyphenation=None)),
+    ("multi", "short-widths", "header1", dict(text=["C", "D", "E"])),
+    ("multi", "short-widths", "body0", dict(col_rel_width=[1, 1])),
+    ("multi", "empty-header", "header1", dict(text=[])),
+    ("multi", "no-columns", "body1", dict(page_by=["c", "d"])),
+    ("multi", "foot-width", "footnote", dict(col_rel_width=None)),
+    ("multi", "empty-list", "title", dict(text_font=[])),
+    ("figure", "empty-list", "title", dict(text_font=[])),
+    ("figure", "empty-list", "subline", dict(text_justification=[])),
+    ("figure", "empty-list", "footnote", dict(text_font=[])),
+    ("figure", "empty-list", "page_footer", dict(text_format=[])),
+    ("figure", "none-required", "footnote", dict(text_hyphenation=None)),
+    ("figure", "none-required", "source", dict(text_font_size=None)),
+    ("figure", "inside:table-attribute-of-paragraph", "footnote", dict(border_left=[])),
+    ("figure", "inside:table-attribute-of-paragraph", "source", dict(cell_height=[])),
+    ("figure", "inside:widths-unused", "footnote", dict(col_rel_width=None)),
+    # `_determine_image_format` falls back to `mimetypes` (a table of the host system): `.jpe` is embedded as JPEG.  The
+    # model knows the extension table only and `acceptedF` follows the model — a documented limitation, counted here
+    ("figure", "unmodelled:mime-fallback", "figure", ".jpe"),
+]
+
+
+def _outside_worker_more(case):
+    import shutil
+    import tempfile
+
+    from . import encodecorr2
+
+    path, cls, comp, kw = case
+    wd = tempfile.mkdtemp(prefix="rtfv_tot2_") if path == "figure" else None
+    try:
+        spec = copy.deepcopy(BASE_M if path == "multi" else BASE_F)
+        if comp == "figure":
+            spec["figure"]["files"][1]["name"] = "f1" + kw
+        elif comp in ("body0", "body1"):
+            spec["body"][int(comp[-1])].update(kw)
+        elif comp == "header1":
+            spec["headers"][1][0].update(kw)
+        else:
+            spec[comp].update(kw)
+        try:
+            with contextlib.redirect_stdout(io.StringIO()):
+                doc = docgen.build(spec, wd)
+        except Exception as e:  # noqa: BLE001
+            return dict(case=list(case), construct=docgen.classify_exc(e) + ": " + str(e)[:120])
+        try:
+            req, real = encodecorr2.encode_real(doc, path)
+        except TypeError as e:
+            return dict(case=list(case), unrepresentable=str(e))
+        return dict(case=list(case), state=req["doc"], widths=req.get("widths", []), status=real[0],
+                    exc=real[1] if real[0] == "error" else None)
+    except Exception:  # noqa: BLE001
+        import traceback
+
+        return dict(machinery=traceback.format_exc()[-1500:])
+    finally:
+        if wd is not None:
+            shutil.rmtree(wd, ignore_errors=True)
+
+
+def check_outside_more(res):
+    outs = common.pool_map(_outside_worker_more, OUTSIDE_MORE, chunksize=4)
+    for o in outs:
+        if "machinery" in o:
+            raise common.MachineryError("encodetotal worker failed: " + o["machinery"])
+    live = [o for o in outs if "state" in o]
+    drv = encodecorr.model_batch([_total_req(o["case"][0], o["state"], o["widths"]) for o in live])
+    for o, t in zip(live, drv):
+        path, cls = o["case"][0], o["case"][1]
+        case = dict(level="encode-total2-outside", case=o["case"])
+        if "accepted" not in t:
+            raise common.MachineryError(f"encode_total ({path}): {t}")
+        res.corr_checked += 1
+        hyp = t["shapes"] and t.get("measure_ok", True) and t.get("contiguous", True)
+        if cls.startswith("unmodelled:"):
+            res.count(f"total2:{path}:{cls}:real-{o['status']}:accepted={t['accepted']}:model-{t['result']}")
+            if o["status"] == "error" and t["accepted"] and hyp:
+                res.fail(case, f"rtf_encode() raises {o['exc']} on an accepted {path} configuration")
+        elif not t["accepted"]:
+            res.disagree(case, f"the real constructors accept this {path} document, the accepted-predicate does not")
+        elif not t["holds"]:
+            res.disagree(case, f"the compiled {path} encoder model violates the statement of the totality theorem: {t}")
+        elif o["status"] == "error":
+            res.count(f"total2:{path}:outside:{cls}:{o['exc']}")
+            if hyp:
+                res.fail(case, f"rtf_encode() raises {o['exc']} on a {path} configuration that is accepted at "
+                               "construction and that the quantifier predicate places INSIDE C01's quantifier")
+            elif t["result"] == "ok":
+                res.disagree(case, f"rtf_encode() raises {o['exc']}, the {path} encoder model returns a document")
+        else:
+            res.count(f"total2:{path}:outside:{cls}:encodes")
+            if cls.startswith("inside:") and not hyp:
+                res.disagree(case, "rtf_encode() encodes this figure document and the figure quantifier "
+                                   "`shapesInQuantifierF` excludes it, although it is meant to contain it")
+            if t["result"] != "ok":
+                res.disagree(case, f"rtf_encode() encodes, the {path} encoder model raises {t['result']}")
+    for o in outs:
+        if "construct" in o:
+            res.count(f"total2:{o['case'][0]}:outside:{o['case'][1]}:now-refused-at-construction")
+        elif "unrepresentable" in o:
+            res.count(f"total2:{o['case'][0]}:outside:{o['case'][1]}:not-representable")
+    return len(live)
+
+
+def run_more(res, outs2):
+    """the multi-section / figure / nested1 tie; `outs2` = outcomes of `encodecorr2.run`"""
+    n = check_accepted_more(res, outs2)
+    n += check_rejected_more(res)
+    n += check_outside_more(res)
+    return n
+
+
 def replay_case(case) -> int:
     """re-run one stored case of this module; 1 = the first clause of C01 fails on it / the tie no longer holds"""
     res = common.Result("C01", "quick", 0)
@@ -390,6 +805,36 @@ def replay_case(case) -> int:
             if not t.get("accepted"):
                 res.disagree(case, "constructed but not `accepted`")
             if o["status"] == "error" and t.get("shapes") and t.get("contiguous") and t.get("measure_ok"):
+                res.fail(case, f"rtf_encode() raises {o['exc']} inside the quantifier")
+    elif lvl == "encode-total2":
+        from . import encodecorr2
+
+        outs = encodecorr2.generate_and_compare(0, 0, paths=(), fixed=[dict(path=case["path"], spec=case["spec"],
+                                                                            info=case.get("info", {}))])
+        check_accepted_more(res, outs)
+        o = outs[0]
+        print("real:", o.get("status"), o.get("exc"), (o.get("msg") or "")[:200], "| verdict:", o.get("verdict"))
+    elif lvl == "encode-total2-invalid":
+        o = common.pool_map(_neg_worker_more, [tuple(case["case"])])[0]
+        print("constructor:", o.get("raised") or "accepts", "| rtf_encode():", o.get("enc") or
+              ("returns" if o.get("raised") is None else "-"))
+        if o.get("state") is not None:
+            t = encodecorr.model_batch([_total_req(case["case"][0], o["state"])])[0]
+            print("model:", t)
+            if (o["raised"] is not None) == bool(t.get("accepted")):
+                if o.get("enc"):
+                    res.fail(case, f"accepted at construction, rtf_encode() raises {o['enc']}")
+                else:
+                    res.disagree(case, "the accepted-predicate and the real constructor disagree on this value")
+    elif lvl == "encode-total2-outside":
+        o = common.pool_map(_outside_worker_more, [tuple(case["case"])])[0]
+        print({k: v for k, v in o.items() if k not in ("state", "widths")})
+        if "state" in o:
+            t = encodecorr.model_batch([_total_req(case["case"][0], o["state"], o["widths"])])[0]
+            print("model:", t)
+            if not t.get("accepted"):
+                res.disagree(case, "constructed but not accepted by the predicate")
+            if o["status"] == "error" and t.get("shapes") and t.get("contiguous", True) and t.get("measure_ok", True):
                 res.fail(case, f"rtf_encode() raises {o['exc']} inside the quantifier")
     for _, why in res.failures:
         print("FAIL:", why)
